@@ -28,10 +28,9 @@ theorem foldl_swapAdjL_eq (n : Nat) (swaps : List Nat) :
   rw [foldForce_eq]
 
 /-- every permutation of 0..n-1 is the certificate of some prefix of the swap walk -/
-theorem p_cover (n : Nat) (fact : Nat) (hfact : n.factorial = fact) (swaps : List Nat) (hs : SwapFacts n swaps)
-    (hd : distinctPermsB n swaps = true) (hl : swaps.length = fact) (σ : Array Nat) (hσ : IsPerm n σ) :
+theorem p_cover (n : Nat) (swaps : List Nat) (hs : SwapFacts n swaps)
+    (hnd : (prefixPerms (List.range n) swaps).Nodup) (hl : swaps.length = factL n) (σ : Array Nat) (hσ : IsPerm n σ) :
     ∃ j, j < swaps.length ∧ certAt n (macroP swaps) j = (σ, 0) := by
-  have hnd := prefixPerms_nodup n swaps hd
   have hV : ∀ j (hj : j < swaps.length), (prefixPerms (List.range n) swaps)[j]? =
       some (certAt n (macroP swaps) j).1.toList := by
     intro j hj
@@ -53,7 +52,7 @@ theorem p_cover (n : Nat) (fact : Nat) (hfact : n.factorial = fact) (swaps : Lis
       obtain ⟨s', hs', rfl⟩ := he
       cases hes
       exact hs.valid s (List.mem_of_mem_take hs'))).2
-  have hmem := perms_covered n _ hnd hperm (by rw [prefixPerms_length, hl, hfact]) σ.toList hσ.2
+  have hmem := perms_covered n _ hnd hperm (by rw [prefixPerms_length, hl, factL_eq]) σ.toList hσ.2
   obtain ⟨j, hj, hjv⟩ := List.getElem_of_mem hmem
   rw [prefixPerms_length] at hj
   refine ⟨j, hj, ?_⟩
@@ -264,13 +263,13 @@ theorem certNPN (n : Nat) (swaps flips : List Nat) (hs : SwapFacts n swaps) (hfl
   rw [hstep, certN n _ flips k hk]
 
 /-- every pair (permutation, mask) is the certificate of some step of the NPN walk -/
-theorem npn_cover (n : Nat) (fact : Nat) (hfact : n.factorial = fact) (swaps flips : List Nat)
+theorem npn_cover (n : Nat) (swaps flips : List Nat)
     (hs : SwapFacts n swaps) (hfl : FlipFacts n flips)
-    (hd : distinctPermsB n swaps = true) (hl : swaps.length = fact)
+    (hd : (prefixPerms (List.range n) swaps).Nodup) (hl : swaps.length = factL n)
     (hdf : (prefixXors 0 flips).Nodup) (hlf : flips.length = 2 ^ n)
     (σ : Array Nat) (hσ : IsPerm n σ) (μ : Nat) (hμ : μ < 2 ^ (n + 1)) :
     ∃ j, j ≤ (macroNPN swaps flips).length ∧ certAt n (macroNPN swaps flips) j = (σ, μ) := by
-  obtain ⟨j, hj, hcj⟩ := p_cover n fact hfact swaps hs hd hl σ hσ
+  obtain ⟨j, hj, hcj⟩ := p_cover n swaps hs hd hl σ hσ
   obtain ⟨k, hk1, hk, hmk⟩ := n_cover n flips hfl hdf hlf μ hμ
   -- the block whose permutation is sigma: j-1, or the last one when j = 0 (the walk is closed)
   have hS : 1 ≤ swaps.length := by
